@@ -89,74 +89,96 @@ def one_match(src, pattern, what, flags=0):
     return m[0]
 
 
+ERRORS = []
+
+
+def soft(c, name, thunk):
+    """One constant: a failure to read it is recorded and the constant is OMITTED from the generated file, so that only
+    the Coq files (hence only the properties) that use it stop compiling."""
+    try:
+        v = thunk()
+        if not isinstance(v, int):
+            if isinstance(v, float) and float(v) == int(v):
+                v = int(v)
+            else:
+                raise TranslateError(f"{name}: non-integer value {v!r}")
+        c[name] = v
+    except TranslateError as e:
+        ERRORS.append(f"{name}: {e}")
+
+
+def soft_read(rel):
+    try:
+        return strip_comments(read(rel))
+    except TranslateError as e:
+        ERRORS.append(str(e))
+        return ""
+
+
 def gather():
     c = {}
-    resp = strip_comments(read("throttlecrab-server/src/transport/redis/resp.rs"))
-    c["MAX_BULK_STRING_SIZE"] = const_decl(resp, "MAX_BULK_STRING_SIZE", "resp.rs")
-    c["MAX_ARRAY_SIZE"] = const_decl(resp, "MAX_ARRAY_SIZE", "resp.rs")
-    c["MAX_ARRAY_DEPTH"] = const_decl(resp, "MAX_ARRAY_DEPTH", "resp.rs")
+    resp = soft_read("throttlecrab-server/src/transport/redis/resp.rs")
+    for nm in ("MAX_BULK_STRING_SIZE", "MAX_ARRAY_SIZE", "MAX_ARRAY_DEPTH"):
+        soft(c, nm, lambda nm=nm: const_decl(resp, nm, "resp.rs"))
 
-    rmod = strip_comments(read("throttlecrab-server/src/transport/redis/mod.rs"))
-    c["MAX_BUFFER_SIZE"] = const_decl(rmod, "MAX_BUFFER_SIZE", "redis/mod.rs")
-    c["READ_CHUNK"] = eval_const_expr(
-        one_match(rmod, r"let\s+mut\s+temp_buf\s*=\s*vec!\[\s*0\s*;\s*([^\]]+)\]", "redis/mod.rs read chunk"),
-        "redis/mod.rs read chunk")
+    rmod = soft_read("throttlecrab-server/src/transport/redis/mod.rs")
+    soft(c, "MAX_BUFFER_SIZE", lambda: const_decl(rmod, "MAX_BUFFER_SIZE", "redis/mod.rs"))
+    soft(c, "READ_CHUNK", lambda: eval_const_expr(
+        one_match(rmod, r"let\s+mut\s+temp_buf\s*=\s*(?:vec!)?\[\s*0(?:u8)?\s*;\s*([^\]]+)\]", "redis/mod.rs read chunk"),
+        "redis/mod.rs read chunk"))
 
-    rl = strip_comments(read("throttlecrab/src/core/rate_limiter.rs"))
-    c["MAX_RETRIES"] = const_decl(rl, "MAX_RETRIES", "rate_limiter.rs")
+    rl = soft_read("throttlecrab/src/core/rate_limiter.rs")
+    soft(c, "MAX_RETRIES", lambda: const_decl(rl, "MAX_RETRIES", "rate_limiter.rs"))
 
-    rate = strip_comments(read("throttlecrab/src/core/rate/mod.rs"))
-    ns = eval_const_expr(
+    rate = soft_read("throttlecrab/src/core/rate/mod.rs")
+    soft(c, "NS_PER_SEC_F64", lambda: eval_const_expr(
         one_match(rate, r"period_seconds\s+as\s+f64\s*\*\s*([0-9_.]+)\s*/\s*count\s+as\s+f64", "rate/mod.rs ns-per-second factor"),
-        "rate/mod.rs factor")
-    if float(ns) != int(ns):
-        raise TranslateError("rate/mod.rs: ns-per-second factor is not integral")
-    c["NS_PER_SEC_F64"] = int(ns)
+        "rate/mod.rs factor"))
     for nm, fn in (("PER_SECOND_SECS", "per_second"), ("PER_MINUTE_SECS", "per_minute"),
                    ("PER_HOUR_SECS", "per_hour"), ("PER_DAY_SECS", "per_day")):
-        c[nm] = eval_const_expr(
+        soft(c, nm, lambda fn=fn: eval_const_expr(
             one_match(rate, r"pub\s+fn\s+" + fn + r"\s*\(\s*n\s*:\s*u64\s*\)\s*->\s*Self\s*\{\s*Rate\s*\{\s*period\s*:\s*Duration::from_secs\(\s*([0-9_]+)\s*\)\s*/\s*n\s+as\s+u32",
-                      f"rate/mod.rs {fn}"), f"rate/mod.rs {fn}")
+                      f"rate/mod.rs {fn}"), f"rate/mod.rs {fn}"))
 
-    met = strip_comments(read("throttlecrab-server/src/metrics.rs"))
-    c["MAX_KEY_LENGTH"] = const_decl(met, "MAX_KEY_LENGTH", "metrics.rs")
-    c["MAX_DENIED_KEYS_LIMIT"] = const_decl(met, "MAX_DENIED_KEYS_LIMIT", "metrics.rs")
-    c["DENIED_CLEANUP_FACTOR"] = eval_const_expr(
+    met = soft_read("throttlecrab-server/src/metrics.rs")
+    soft(c, "MAX_KEY_LENGTH", lambda: const_decl(met, "MAX_KEY_LENGTH", "metrics.rs"))
+    soft(c, "MAX_DENIED_KEYS_LIMIT", lambda: const_decl(met, "MAX_DENIED_KEYS_LIMIT", "metrics.rs"))
+    soft(c, "DENIED_CLEANUP_FACTOR", lambda: eval_const_expr(
         one_match(met, r"self\.counts\.len\(\)\s*>\s*self\.max_size\s*\*\s*([0-9_]+)", "metrics.rs cleanup factor"),
-        "metrics.rs cleanup factor")
-    c["DEFAULT_MAX_DENIED_KEYS"] = eval_const_expr(
+        "metrics.rs cleanup factor"))
+    soft(c, "DEFAULT_MAX_DENIED_KEYS", lambda: eval_const_expr(
         one_match(met, r"pub\s+fn\s+new\(\)\s*->\s*Self\s*\{\s*Self\s*\{\s*max_denied_keys\s*:\s*([0-9_]+)", "metrics.rs default max_denied_keys"),
-        "metrics.rs default")
+        "metrics.rs default"))
 
-    prob = strip_comments(read("throttlecrab/src/core/store/probabilistic.rs"))
-    c["PROBABILISTIC_CLEANUP_MODULO"] = const_decl(prob, "PROBABILISTIC_CLEANUP_MODULO", "probabilistic.rs")
-    c["PROB_MULTIPLIER"] = eval_const_expr(
+    prob = soft_read("throttlecrab/src/core/store/probabilistic.rs")
+    soft(c, "PROBABILISTIC_CLEANUP_MODULO", lambda: const_decl(prob, "PROBABILISTIC_CLEANUP_MODULO", "probabilistic.rs"))
+    soft(c, "PROB_MULTIPLIER", lambda: eval_const_expr(
         one_match(prob, r"operations_count\s*\.\s*wrapping_mul\(\s*([0-9_]+)\s*\)", "probabilistic.rs multiplier"),
-        "probabilistic.rs multiplier")
+        "probabilistic.rs multiplier"))
 
-    per = strip_comments(read("throttlecrab/src/core/store/periodic.rs"))
-    c["PERIODIC_DEFAULT_CLEANUP_INTERVAL_SECS"] = const_decl(per, "DEFAULT_CLEANUP_INTERVAL_SECS", "periodic.rs")
+    per = soft_read("throttlecrab/src/core/store/periodic.rs")
+    soft(c, "PERIODIC_DEFAULT_CLEANUP_INTERVAL_SECS", lambda: const_decl(per, "DEFAULT_CLEANUP_INTERVAL_SECS", "periodic.rs"))
 
-    ada = strip_comments(read("throttlecrab/src/core/store/adaptive_cleanup.rs"))
-    c["ADAPTIVE_MIN_CLEANUP_INTERVAL_SECS"] = const_decl(ada, "MIN_CLEANUP_INTERVAL_SECS", "adaptive_cleanup.rs")
-    c["ADAPTIVE_MAX_CLEANUP_INTERVAL_SECS"] = const_decl(ada, "MAX_CLEANUP_INTERVAL_SECS", "adaptive_cleanup.rs")
-    c["ADAPTIVE_DEFAULT_CLEANUP_INTERVAL_SECS"] = const_decl(ada, "DEFAULT_CLEANUP_INTERVAL_SECS", "adaptive_cleanup.rs")
-    c["ADAPTIVE_MAX_OPERATIONS_BEFORE_CLEANUP"] = const_decl(ada, "MAX_OPERATIONS_BEFORE_CLEANUP", "adaptive_cleanup.rs")
+    ada = soft_read("throttlecrab/src/core/store/adaptive_cleanup.rs")
+    for nm, src in (("ADAPTIVE_MIN_CLEANUP_INTERVAL_SECS", "MIN_CLEANUP_INTERVAL_SECS"), ("ADAPTIVE_MAX_CLEANUP_INTERVAL_SECS", "MAX_CLEANUP_INTERVAL_SECS"),
+                    ("ADAPTIVE_DEFAULT_CLEANUP_INTERVAL_SECS", "DEFAULT_CLEANUP_INTERVAL_SECS"), ("ADAPTIVE_MAX_OPERATIONS_BEFORE_CLEANUP", "MAX_OPERATIONS_BEFORE_CLEANUP")):
+        soft(c, nm, lambda src=src: const_decl(ada, src, "adaptive_cleanup.rs"))
 
-    http = strip_comments(read("throttlecrab-server/src/transport/http.rs"))
-    c["HTTP_DEFAULT_QUANTITY"] = eval_const_expr(
-        one_match(http, r"quantity\s*:\s*req\.quantity\.unwrap_or\(\s*([0-9_]+)\s*\)", "http.rs default quantity"), "http.rs default quantity")
+    http = soft_read("throttlecrab-server/src/transport/http.rs")
+    soft(c, "HTTP_DEFAULT_QUANTITY", lambda: eval_const_expr(
+        one_match(http, r"quantity\s*:\s*req\.quantity\.unwrap_or\(\s*([0-9_]+)\s*\)", "http.rs default quantity"), "http.rs default quantity"))
 
-    proto = read("throttlecrab-server/proto/throttlecrab.proto")
-    resp_msg = one_match(proto, r"message\s+ThrottleResponse\s*\{([^}]*)\}", "proto ThrottleResponse")
-    req_msg = one_match(proto, r"message\s+ThrottleRequest\s*\{([^}]*)\}", "proto ThrottleRequest")
-    for msg, pref, fields in ((resp_msg, "PROTO_RESP_", ("allowed", "limit", "remaining", "retry_after", "reset_after")),
-                              (req_msg, "PROTO_REQ_", ("key", "max_burst", "count_per_period", "period", "quantity"))):
+    try:
+        proto = read("throttlecrab-server/proto/throttlecrab.proto")
+    except TranslateError as e:
+        ERRORS.append(str(e))
+        proto = ""
+    for msgname, pref, fields in (("ThrottleResponse", "PROTO_RESP_", ("allowed", "limit", "remaining", "retry_after", "reset_after")),
+                                  ("ThrottleRequest", "PROTO_REQ_", ("key", "max_burst", "count_per_period", "period", "quantity"))):
         for f in fields:
-            c[pref + f.upper()] = int(one_match(msg, r"\b" + f + r"\s*=\s*([0-9]+)\s*;", f"proto field {f}"))
-    for k, v in c.items():
-        if not isinstance(v, int):
-            raise TranslateError(f"{k}: non-integer value {v!r}")
+            soft(c, pref + f.upper(), lambda f=f, msgname=msgname: int(one_match(
+                one_match(proto, r"message\s+" + msgname + r"\s*\{([^}]*)\}", "proto " + msgname),
+                r"\b" + f + r"\s*=\s*([0-9]+)\s*;", f"proto field {f}")))
     return c
 
 
@@ -229,33 +251,52 @@ def struct_decl(src, name, what):
 
 def gather_glue():
     g = {}
-    types = strip_comments(read("throttlecrab-server/src/types.rs"))
-    if re.search(r"#\s*\[\s*serde\s*\(", types):
-        raise TranslateError("types.rs: serde container/field attributes present; the JSON model does not cover them")
-    g["TYPES_RESPONSE_FIELDS"] = struct_decl(types, "ThrottleResponse", "types.rs ThrottleResponse")
-    frm = block_after(types, r"impl\s+From<\(bool,\s*RateLimitResult\)>\s+for\s+ThrottleResponse\s*\{", "types.rs From impl")
-    g["TYPES_FROM"] = struct_literal(frm, r"ThrottleResponse\s*\{", "types.rs From literal")
-    http = strip_comments(read("throttlecrab-server/src/transport/http.rs"))
-    g["HTTP_REQUEST_FIELDS"] = struct_decl(http, "HttpThrottleRequest", "http.rs HttpThrottleRequest")
-    hreq = struct_literal(http, r"let\s+internal_req\s*=\s*InternalRequest\s*\{", "http.rs internal request")
-    g["HTTP_REQ"] = [(f, re.sub(r"unwrap_or\([0-9_]+\)", "unwrap_or(#)", e)) for f, e in hreq]
-    grpc = strip_comments(read("throttlecrab-server/src/transport/grpc.rs"))
-    grpc = grpc.split("#[cfg(test)]")[0]
-    g["GRPC_REQ"] = struct_literal(grpc, r"let\s+actor_request\s*=\s*ActorRequest\s*\{", "grpc.rs actor request")
-    g["GRPC_RESP"] = struct_literal(grpc, r"let\s+response\s*=\s*ThrottleResponse\s*\{", "grpc.rs response")
-    rmod = strip_comments(read("throttlecrab-server/src/transport/redis/mod.rs"))
-    ht = block_after(rmod, r"async\s+fn\s+handle_throttle\s*\([^)]*\)\s*->\s*RespValue\s*\{", "redis/mod.rs handle_throttle")
-    arr = block_after(ht, r"RespValue::Array\s*\(\s*vec!\s*\[", "redis/mod.rs reply array", "[", "]")
-    g["RESP_REPLY"] = [(str(i), e) for i, e in enumerate(split_top(arr))]
-    g["RESP_REQ"] = struct_literal(ht, r"let\s+request\s*=\s*ThrottleRequest\s*\{", "redis/mod.rs request")
-    m = re.findall(r"if\s+args\.len\(\)\s*<\s*([0-9]+)\s*\|\|\s*args\.len\(\)\s*>\s*([0-9]+)", ht)
-    if len(m) != 1:
-        raise TranslateError("redis/mod.rs: arity check of handle_throttle not found")
-    g["RESP_ARITY"] = [("min", m[0][0]), ("max", m[0][1])]
-    q = re.findall(r"let\s+quantity\s*=\s*if\s+args\.len\(\)\s*==\s*([0-9]+)\s*\{.*?\}\s*else\s*\{\s*([0-9]+)\s*\}\s*;", ht, re.S)
-    if len(q) != 1:
-        raise TranslateError("redis/mod.rs: default quantity of handle_throttle not found")
-    g["RESP_QUANTITY"] = [("with_quantity_len", q[0][0]), ("default", q[0][1])]
+
+    def table(name, thunk):
+        try:
+            g[name] = thunk()
+        except TranslateError as e:
+            ERRORS.append(f"{name}: {e}")
+
+    types = soft_read("throttlecrab-server/src/types.rs")
+    serde_attr = bool(re.search(r"#\s*\[\s*serde\s*\(", types))
+
+    def no_serde(v):
+        if serde_attr:
+            raise TranslateError("types.rs: serde container/field attributes present; the JSON model does not cover them")
+        return v
+    table("TYPES_RESPONSE_FIELDS", lambda: no_serde(struct_decl(types, "ThrottleResponse", "types.rs ThrottleResponse")))
+    table("TYPES_FROM", lambda: struct_literal(
+        block_after(types, r"impl\s+From<\(bool,\s*RateLimitResult\)>\s+for\s+ThrottleResponse\s*\{", "types.rs From impl"),
+        r"ThrottleResponse\s*\{", "types.rs From literal"))
+    http = soft_read("throttlecrab-server/src/transport/http.rs")
+    table("HTTP_REQUEST_FIELDS", lambda: struct_decl(http, "HttpThrottleRequest", "http.rs HttpThrottleRequest"))
+    table("HTTP_REQ", lambda: [(f, re.sub(r"unwrap_or\([0-9_]+\)", "unwrap_or(#)", e))
+                                for f, e in struct_literal(http, r"let\s+internal_req\s*=\s*InternalRequest\s*\{", "http.rs internal request")])
+    grpc = soft_read("throttlecrab-server/src/transport/grpc.rs").split("#[cfg(test)]")[0]
+    table("GRPC_REQ", lambda: struct_literal(grpc, r"let\s+actor_request\s*=\s*ActorRequest\s*\{", "grpc.rs actor request"))
+    table("GRPC_RESP", lambda: struct_literal(grpc, r"let\s+response\s*=\s*ThrottleResponse\s*\{", "grpc.rs response"))
+    rmod = soft_read("throttlecrab-server/src/transport/redis/mod.rs")
+
+    def ht():
+        return block_after(rmod, r"async\s+fn\s+handle_throttle\s*\([^)]*\)\s*->\s*RespValue\s*\{", "redis/mod.rs handle_throttle")
+    table("RESP_REPLY", lambda: [(str(i), e) for i, e in enumerate(split_top(
+        block_after(ht(), r"RespValue::Array\s*\(\s*vec!\s*\[", "redis/mod.rs reply array", "[", "]")))])
+    table("RESP_REQ", lambda: struct_literal(ht(), r"let\s+request\s*=\s*ThrottleRequest\s*\{", "redis/mod.rs request"))
+
+    def arity():
+        m = re.findall(r"if\s+args\.len\(\)\s*<\s*([0-9]+)\s*\|\|\s*args\.len\(\)\s*>\s*([0-9]+)", ht())
+        if len(m) != 1:
+            raise TranslateError("redis/mod.rs: arity check of handle_throttle not found")
+        return [("min", m[0][0]), ("max", m[0][1])]
+    table("RESP_ARITY", arity)
+
+    def quantity():
+        q = re.findall(r"let\s+quantity\s*=\s*if\s+args\.len\(\)\s*==\s*([0-9]+)\s*\{.*?\}\s*else\s*\{\s*([0-9]+)\s*\}\s*;", ht(), re.S)
+        if len(q) != 1:
+            raise TranslateError("redis/mod.rs: default quantity of handle_throttle not found")
+        return [("with_quantity_len", q[0][0]), ("default", q[0][1])]
+    table("RESP_QUANTITY", quantity)
     return g
 
 
@@ -290,17 +331,9 @@ def render(c):
 
 
 def main():
-    try:
-        c = gather()
-    except TranslateError as e:
-        print(f"extract_consts: TRANSLATION FAILED: {e}", file=sys.stderr)
-        return 2
-    try:
-        glue_text = render_glue(gather_glue())
-    except TranslateError as e:
-        print(f"extract_consts: TRANSLATION FAILED (transport glue): {e}", file=sys.stderr)
-        return 2
-    for path, text in ((OUT, render(c)), (OUT_GLUE, glue_text)):
+    c = gather()
+    g = gather_glue()
+    for path, text in ((OUT, render(c)), (OUT_GLUE, render_glue(g))):
         out = os.path.normpath(path)
         old = None
         if os.path.exists(out):
@@ -310,6 +343,11 @@ def main():
             os.makedirs(os.path.dirname(out), exist_ok=True)
             with open(out, "w") as f:
                 f.write(text)
+    errp = os.path.join(os.path.dirname(os.path.normpath(OUT)), "T1_ERRORS.txt")
+    with open(errp, "w") as f:
+        f.write("\n".join(ERRORS) + ("\n" if ERRORS else ""))
+    for e in ERRORS:
+        print(f"extract_consts: NOT TRANSLATED (omitted from the generated files): {e}", file=sys.stderr)
     if "--print" in sys.argv:
         import json
         print(json.dumps(c, indent=1, sort_keys=True))
